@@ -3,7 +3,7 @@
 use crate::common::{Ctx, Input, Rep};
 use crate::drive;
 use crate::model;
-use ckc_rs::PokerCard;
+use ckc_rs::{PokerCard, Shifty};
 
 /// apply marks in the given order; mark 0 = pair, 1 = trips, 2 = quads
 fn apply(w: u32, order: &[u8]) -> u32 {
@@ -84,7 +84,8 @@ fn check_card(rep: &mut Rep, i: u8, seqs: &[Vec<u8>], words_seen: &mut std::coll
             // the accessors derived from the rank and suit fields read the same as well
             && marked.get_chen_points() == c.get_chen_points()
             && marked.next_suit() == c.next_suit()
-            && marked.is_blank() == c.is_blank();
+            && marked.is_blank() == c.is_blank()
+            && marked.shift_suit() == c.shift_suit();
         // ... and as the layout says
         let by_layout = marked.get_rank_bit() == 1 << r
             && marked.get_rank_prime() == model::PRIMES[r as usize]
